@@ -311,6 +311,32 @@ class Case:
         self.inconclusive.append(f"{self.name}/{name}: vacuity twin came back {verdict} (assumptions unsatisfiable or assertion unreachable)")
         return False
 
+    def sym_explore(self, name, fn, post, assume=(), replay=None, key=None, max_paths=5000, int_range=64, timeout_ms=None):
+        """E2: run the real Python function ``fn`` (closing over pysym inputs) over every feasible path; per path prove
+        ``post(result, exception)`` (z3 Bool / SymBool / bool) under the path condition."""
+        from . import pysym
+
+        ex = pysym.Explorer(assume, max_paths=max_paths, timeout_ms=timeout_ms or self.timeout_ms, int_range=int_range)
+
+        def on_path(res, exc, pc):
+            claim = post(res, exc)
+            if isinstance(claim, pysym.SymBool):
+                claim = claim.t
+            self.prove(f"{name}#path{ex.paths}", claim, pc, replay, key)
+
+        try:
+            ex.explore(fn, on_path)
+        except pysym.Budget as b:
+            self.inconclusive.append(f"{self.name}/{name}: exploration budget: {b}")
+        self.paths += ex.paths
+        self.queries += ex.queries
+        self.solver_s += ex.solver_s
+        self.extra.setdefault("concretisations", 0)
+        self.extra["concretisations"] += ex.concretisations
+        if ex.unknown:
+            self.notes.append(f"{name}: {ex.unknown} feasibility queries were 'unknown' (both sides explored)")
+        return ex
+
     def fail_concrete(self, name, detail, key=None):
         """a violation established by direct execution of the real code (e.g. an exception on a legal input)."""
         self.obligations += 1
